@@ -188,6 +188,7 @@ pub fn rule_text(prop: u8) -> &'static str {
         16 => "state + clear/drain (consumption program, drop or forget) + continuation; non-trivial = size>=2 before, partial consumption or leak or clear, then >=3 further ops including an extraction; distinct = hash of the case",
         17 => "history with capacity ops interleaved; non-trivial = >=2 capacity ops on a non-empty queue and a later checked extraction; distinct = hash of the case",
         5 => "(kind, n = 2^e + jitter with e up to 16 quick / 20 thorough, one of 6 priority patterns, an optional bulk operation, then up to 40 single-element operations with generated target class and new-priority class on an evolving queue); every public call is bracketed by a thread-local Ord::cmp counter and compared with fixed bounds: 0 for peek/peek_min/len/lookups, <=1 for peek_max, <=16*(floor(log2 n)+1)+32 for single-element operations, <=8*(n+k)+64 for bulk rebuilds; non-trivial = n>=1024 (at small n the logarithmic bound does not separate from linear) or a zero-comparison probe on n>=2; distinct = hash of the case",
+        10 => "history in which generated operations run with a fuse armed: the k-th Ord::cmp / Hash / Eq / Clone / predicate-or-setter / feeding-iterator callback inside the operation panics (k scaled into the number of callbacks counted on a clone, thorough tier sweeps every k), the panic is caught, and generated continuations plus a deterministic battery (pop all, remove all, pushes and priority changes, retain/iter_mut/drain, conversions) run on the survivor; iter_mut and drain guards are also leaked with mem::forget; oracle = the sanitizing build must not abort and no instrumented item/priority instance may be dropped twice or leaked; non-trivial = a fuse fired inside an operation on >=3 elements with >=3 continuation operations, or a guard leaked on a non-empty queue; distinct = hash of the case",
         14 => "a content set S and two independent histories (different constructors, hashers, capacities) equalised to S, a near-miss variant (one priority / one item removed / one added / two priorities exchanged), a From<Vec>-built third queue, then a clone driven in lock-step and one-sidedly; non-trivial = |S|>=3 and the two routes produced different raw arrangements, or the lock-step continuation had >=5 mutating ops; distinct = hash of the case",
         18 => "a history executed under 5 BuildHasher configurations (RandomState via new(), fixed SipHash, RandomState via with_hasher, XxHash64, all-colliding), each against the model, traces compared pairwise up to ties; non-trivial = >=10 ops incl. a removal, a priority change and a checked extraction on size>=4, all configurations incl. the colliding one run; distinct = hash of the case",
         _ => "see DESIGN.md",
